@@ -57,6 +57,13 @@ def gen_pairs(ctx, groups: bool):
         bottom = acegen.mutate(rnd, plat, top, groups) if rnd.random() < 0.85 else acegen.rand_ace(rnd, plat, groups)
         if rnd.random() < 0.3:
             top, bottom = bottom, top
+        if rnd.random() < 0.08:
+            # the flag clause on its own: a tcp top WITH flags and a log keyword (spelled in either order) over a
+            # bottom with the same fields and no / other / fewer / more flags
+            top = dict(top, proto=6, flags=rnd.sample(acegen.FLAGS, rnd.randint(1, 2)), logs=[rnd.choice(["log", "log-input"])])
+            bottom = dict(top, flags=rnd.choice([[], rnd.sample(acegen.FLAGS, 1), list(top["flags"])[:1],
+                                                 sorted(set(top["flags"]) | set(rnd.sample(acegen.FLAGS, 1)))]),
+                          logs=rnd.choice([[], ["log"]]))
         pairs.append((plat, bottom, top))
     return rnd, pairs
 
